@@ -118,6 +118,34 @@ func assignedFields(fd *ast.FuncDecl) []string {
 	return out
 }
 
+// assignedFieldsOf: as assignedFields, but what a helper method of the same receiver type does
+// counts as done by the caller (ex_resetorder.go: orderedEffects), so that factoring the
+// teardown out into a helper does not change the table. Falls back to the body alone when
+// the method is not straight-line code.
+func (w *World) assignedFieldsOf(typ, method string) []string {
+	eff, err := w.orderedEffects(typ, method)
+	if err != nil {
+		return assignedFields(w.FuncDecl(typ + "." + method))
+	}
+	set := map[string]bool{}
+	for _, e := range eff {
+		switch {
+		case e == "call:buffer.Reset":
+			set["buffer"] = true
+		case strings.HasPrefix(e, "assign:"):
+			set[strings.TrimPrefix(e, "assign:")] = true
+		default:
+			set[e] = true
+		}
+	}
+	var out []string
+	for k := range set {
+		out = append(out, k)
+	}
+	sort.Strings(out)
+	return out
+}
+
 func runeLit(e ast.Expr) (int, bool) {
 	bl, ok := e.(*ast.BasicLit)
 	if !ok {
@@ -249,9 +277,9 @@ func emitLexTables(w *World) (string, error) {
 
 	b.WriteString(leanStrList("lexerFields", structFields(lf, "Lexer")))
 	b.WriteString(leanStrList("parserFields", structFields(pf, "Parser")))
-	b.WriteString(leanStrList("lexerResetAssigns", assignedFields(w.FuncDecl("Lexer.Reset"))))
-	b.WriteString(leanStrList("parserResetAssigns", assignedFields(w.FuncDecl("Parser.Reset"))))
-	b.WriteString(leanStrList("parserResetAddNewInputAssigns", assignedFields(w.FuncDecl("Parser.ResetAddNewInput"))))
+	b.WriteString(leanStrList("lexerResetAssigns", w.assignedFieldsOf("Lexer", "Reset")))
+	b.WriteString(leanStrList("parserResetAssigns", w.assignedFieldsOf("Parser", "Reset")))
+	b.WriteString(leanStrList("parserResetAddNewInputAssigns", w.assignedFieldsOf("Parser", "ResetAddNewInput")))
 	b.WriteString("\nend ZygoVerif.Generated.LexTables\n")
 	return b.String(), nil
 }
